@@ -34,6 +34,8 @@ struct Config {
   size_t max_live_bytes = 192u << 20;
   size_t max_live_blocks = 20000;
   uint64_t size_cap = 0;           // 0 = profile default
+  bool abandon_ok = false;         // forced abandonment is configured (target_segments_per_thread > 0): live blocks may sit in abandoned segments
+                                   // (visible through mi_abandoned_visit_blocks only) and heap attribution is not stable
   std::string generic;             // if set: what the generic oracles (overlap, contents, crash, unexpected error) refute
   int  size_mode = 0;              // 0 default mix, 1 mostly >= 1 MiB (large and huge)
   int  workload = 0;               // OS profiles: which workload
